@@ -300,6 +300,9 @@ def run(chk):
     d3(chk, prog)
     d4(chk, prog)
     d5(chk, prog)
+    chk.clause("D6", "the stated sample sex reaches the computation: verify_sample_sex (C15 rule)")
+    from . import C15
+    C15.d3c_stated_sex(chk, prog)
 
 
 _E = "cnvlib/export.py"
